@@ -183,6 +183,59 @@ def run(ctx):
                 violations.append({"impl_case": hlines[i][:3000], "what": "container input (%s): a chunked reader and the slice disagree" % c,
                                    "slice": hres[a][:300], "reader": hres[i][:300]})
                 break
+    # container files written by hand whose blocks LIE about their byte size (null codec): the announced size is larger than what
+    # the announced objects take (surplus bytes before a correct sync marker), an empty block (0 objects) of non-zero size, a
+    # size that is too small, a count that is too small / too large -- in the first, a middle or the last block, all bytes
+    # present: the slice and every chunking must agree item by item (and with the container reader model)
+    mlines, mgroups, msch = [], [], []
+    sync = bytes(range(0xA0, 0xB0))
+    for rep in range(4 if ctx["tier"] == "quick" else 60):
+        for lab, js, nodes, enc1, var_len in ocf.SCHEMAS + [fx]:
+            def datum2(nlen):
+                body = bytes(0x61 + rng.randrange(26) for _ in range(nlen))
+                if lab == "fixed-rec":
+                    return bytes(rng.randrange(256) for _ in range(24)) + G.varint(nlen) + body
+                return enc1(nlen, body)
+            good = [[datum2(rng.choice([0, 1, 4, 20])) for _ in range(rng.randint(1, 3))] for _ in range(3)]
+            at = rng.randrange(3)
+            kind = rng.choice(["surplus", "surplus", "surplus", "empty-nonzero-size", "empty-nonzero-size", "size-too-small", "count-too-small", "count-too-large"])
+            pad = bytes(rng.choice([0, 0, 2, 0xFF, 0x61]) for _ in range(rng.choice([1, 1, 2, 5, 40])))
+            parts = []
+            for bi, b in enumerate(good):
+                if bi != at:
+                    parts.append(ocf.block(b, sync))
+                elif kind == "surplus":
+                    parts.append(ocf.block(b + [pad], sync, count=len(b)))
+                elif kind == "empty-nonzero-size":
+                    parts.append(ocf.block([pad], sync, count=0))
+                elif kind == "size-too-small":
+                    parts.append(ocf.block(b, sync, size=max(0, len(b"".join(b)) - rng.choice([1, 2]))))
+                elif kind == "count-too-small":
+                    parts.append(ocf.block(b + [datum2(3)], sync, count=len(b)))
+                else:
+                    parts.append(ocf.block(b, sync, count=len(b) + 1))
+            f = ocf.header(js, sync) + b"".join(parts)
+            total = sum(len(b) for b in good)
+            start = len(mlines)
+            for pl in ["slice"] + ["(chunks %d)" % k for k in (1, 2, 3, 5, 7, 16, 64, 8192)] + ["(chunks %d %d %d)" % (rng.randint(1, 5), rng.randint(1, 50), rng.randint(1, 5))]:
+                mlines.append("cr %s %s any %d" % (C.hx(f), pl, total + 4))
+                msch.append(G.schema_sx(nodes))
+            mgroups.append((start, len(mlines), "null, hand-written, block %d: %s (%s)" % (at + 1, kind, lab)))
+    mres = C.run_parallel(C.AVRODRIVE, mlines)
+    mmod = C.run_parallel(C.AVROMODEL, ["%s %s" % (l, s_) for l, s_ in zip(mlines, msch)])
+    from collections import Counter
+    mdist = Counter()
+    for a, b, c in mgroups:
+        base = ckey(mres[a])
+        mdist[c.split(": ")[1].split(" (")[0] + ("/err" if base and base[-1][0] in ("err", "open-err") else "/no-err")] += 1
+        for i in range(a, b):
+            if ckey(mres[i]) != ckey(mmod[i]) and "(unmodelled)" not in mmod[i]:
+                diffs.append({"impl_case": mlines[i][:3000], "model_case": ("%s %s" % (mlines[i], msch[i]))[:3000], "impl": mres[i][:400], "model": mmod[i][:400]})
+        for i in range(a + 1, b):
+            if ckey(mres[i]) != base:
+                violations.append({"impl_case": mlines[i][:3000], "what": "container input (%s): a chunked reader and the slice disagree" % c,
+                                   "slice_case": mlines[a][:3000], "slice": mres[a][:300], "reader": mres[i][:300]})
+                break
     # single-object input: messages (header from the MODEL's encoder) incl. zero-byte datums -- the message is exactly the 10
     # header bytes --, followed by other data, cut at every length 0..12 and beyond: slice vs every refill size
     so_pairs = D.zero_byte_cases() + [(s["nodes"], s["evalue"]) for s in sp[:40 if ctx["tier"] == "quick" else 2000]]
@@ -218,7 +271,7 @@ def run(ctx):
                 break
     samples = [{"case": lines[g[0] + 1][:200]} for g in groups[:4]]
     diffs.extend(wf["diffs"])
-    return {"evaluations": len(lines) + len(clines) + len(hlines) + len(slines) + wf["evaluations"], "distinct_nontrivial": len(distinct) + len(cgroups) + len(hgroups) + len(sgroups),
+    return {"evaluations": len(lines) + len(clines) + len(hlines) + len(mlines) + len(slines) + wf["evaluations"], "distribution": dict(mdist), "distinct_nontrivial": len(distinct) + len(cgroups) + len(hgroups) + len(sgroups),
             "notes": {"whole_file_reader_model_vs_crate(compressed files under chunk plans)": wf["notes"]},
             "rule": "(schema, bytes) with bytes = valid encodings (random block layouts), valid + trailing data, and mutations (flipped continuation "
                     "bits, truncations, runs of 0x80/0xFF making over-long varints) x targets (dynamic, typed, ignored, random hints) x limits; "
@@ -226,7 +279,9 @@ def run(ctx):
                     "erased) and same number of bytes left, or an error everywhere; container files (12 codec settings; complete, truncated, "
                     "damaged) from slice vs 9 chunkings; hand-written null-codec files whose blocks differ in byte size (a block of 0..3 bytes "
                     "before / between blocks holding strings, bytes, fixed values of up to 130 bytes; files of zero-byte datums) from slice vs "
-                    "refill sizes 1,2,3,5,7,16,64,8192 and a random plan, and against the container reader model; single-object messages (header "
+                    "refill sizes 1,2,3,5,7,16,64,8192 and a random plan, and against the container reader model; hand-written files whose first / "
+                    "middle / last block LIES about its size or count (surplus bytes before a correct sync marker, an empty block of non-zero size, size "
+                    "too small, count too small / too large; all bytes present): slice vs the same refill sizes item by item, and against the model; single-object messages (header "
                     "by the model's encoder; incl. zero-byte datums: the message is exactly its header) complete, followed by data, cut at 0,1,2,9,10 "
                     "and a random length, one header bit flipped: slice vs refill sizes 1..13 and plans, and against the model; "
                     "model vs crate on a sample",
